@@ -195,6 +195,104 @@ def forced_interleavings(ctx, res):
         pyg.reset_globals()
 
 
+def lazy_functions():
+    """(absolute file name, function name) of every function in pygopherd/ that declares a module-level name `global`"""
+    out = set()
+    for path in glob.glob(os.path.join(pyg.REPO, "pygopherd", "**", "*.py"), recursive=True):
+        try:
+            t = ast.parse(open(path).read())
+        except SyntaxError:
+            continue
+        for fn in ast.walk(t):
+            if isinstance(fn, (ast.FunctionDef, ast.AsyncFunctionDef)) and any(isinstance(n, ast.Global) for n in ast.walk(fn)):
+                out.add((os.path.realpath(path), fn.name))
+    return out
+
+
+def forced_lazy_interleavings(ctx, res):
+    """The module lazies' interleavings (Model/Conc: `if unset: X = f(config)` in two threads), forced on the real code: a cold
+    request A is pre-empted at the k-th executed line inside the functions that initialise module-level state, request B runs to
+    completion there (as another thread of the threading server would), then A goes on.  For every k: A and B each get the
+    response they get alone."""
+    lazy = lazy_functions()
+    res.extra["lazy_functions"] = sorted(f"{os.path.relpath(a, pyg.REPO)}:{b}" for a, b in lazy)
+    tree = pyg.Tree()
+    try:
+        trees.standard(tree, hostile_content=False)
+        tree.write("pics/photo.jpg", b"\xff\xd8\xff")
+        tree.write("pics/song.mp3", b"ID3")
+        tree.write("pics/archive.hqx", b"x")
+        tree.write("pics/prog.bin", b"\0\1")
+        cfg = pyg.make_config(tree.root, **{"handlers.dir.DirHandler|cachetime": "0"})
+        pairs = [(reqs.build("http", "/pics"), reqs.build("gopher", "/pics")), (reqs.build("gopher", "/"), reqs.build("gopherp", "/pics/img.gif", gplus="!")),
+                 (reqs.build("gopherp", "/docs", gplus="$"), reqs.build("http", "/")), (reqs.build("gopher", "/pics/photo.jpg"), reqs.build("gopherp", "/pics", gplus="$"))]
+
+        def mask(b):
+            return re.sub(rb"(Last-Modified|Mod-Date):[^\r\n]*", b"T", b or b"")
+        for pa, pb in pairs:
+            alone = {}
+            for rq in (pa, pb):
+                pyg.reset_globals()
+                alone[rq] = mask(pyg.request(rq, cfg, reset=False).out)
+
+            def run_at(k):
+                state = {"n": 0, "b": None, "fired": False}
+
+                def local(frame, event, arg):
+                    if event == "line":
+                        state["n"] += 1
+                        if state["n"] == k and not state["fired"]:
+                            state["fired"] = True
+                            sys.settrace(None)
+                            try:
+                                state["b"] = pyg.request(pb, cfg, reset=False)
+                            finally:
+                                sys.settrace(tracer)
+                    return local
+
+                first_calls = set()
+
+                def tracer(frame, event, arg):
+                    # the first two invocations of each initialising function: the cold one, and the first that finds the state set
+                    key = (os.path.realpath(frame.f_code.co_filename), frame.f_code.co_name)
+                    if event == "call" and key in lazy:
+                        n_ = sum(1 for x in first_calls if x[0] == key)
+                        if n_ < 2:
+                            first_calls.add((key, n_))
+                            return local
+                    return None
+                pyg.reset_globals()
+                sys.settrace(tracer)
+                try:
+                    ra = pyg.request(pa, cfg, reset=False)
+                finally:
+                    sys.settrace(None)
+                return ra, state
+            _ra, st0 = run_at(-1)
+            total = st0["n"]
+            res.count("lazy-preemption-points", total)
+            ks = list(range(1, total + 1))
+            cap = ctx.n(60, 600)
+            if len(ks) > cap:
+                ks = sorted(ctx.rng.sample(ks, cap))
+            for k in ks:
+                ra, st_ = run_at(k)
+                res.evaluations += 2
+                if not st_["fired"]:
+                    continue
+                res.nontrivial.add(("lazy", pa, pb, k))
+                for who, rq, r in (("A (pre-empted while initialising shared state)", pa, ra), ("B (served in between)", pb, st_["b"])):
+                    if r is None or r.exc is not None or mask(r.out) != alone[rq]:
+                        res.violation("C14:lazy-interleaving:" + who[:1], "a client served while another thread is initialising shared state does not get the response it gets alone",
+                                      {"preempted_at_line_event": k, "of": total, "who": who, "request": rq[:80], "other_request": (pb if rq is pa else pa)[:80]},
+                                      observed={"out": (r.out[:200] if r is not None and r.out is not None else None), "exc": repr(getattr(r, "exc", None))},
+                                      required=alone[rq][:200], replay={"lazy": True, "k": k, "a": pa.decode("latin-1"), "b": pb.decode("latin-1")})
+    finally:
+        sys.settrace(None)
+        tree.close()
+        pyg.reset_globals()
+
+
 def run(ctx):
     res = Result()
     res.rule = ("forced interleavings of the shared cache file (reader runs while the writer has written k bytes, k in {0, 1, half, all but "
@@ -212,6 +310,7 @@ def run(ctx):
     for pr in problems:
         res.disagree("C14.lazy-shape", pr, "if unset: X = f(config)", "different shape")
     forced_interleavings(ctx, res)
+    forced_lazy_interleavings(ctx, res)
     tree = pyg.Tree()
     try:
         shutil.rmtree(tree.root)
